@@ -87,7 +87,7 @@ func LoadFixtures(maxData, maxProfiles int) *Fixtures {
 			return nil
 		}
 		switch {
-		case strings.HasSuffix(p, ".jsonld") && info.Size() < 16*1024 && !strings.Contains(p, "report"):
+		case strings.HasSuffix(p, ".jsonld") && info.Size() < 16*1024 && !strings.Contains(filepath.Base(p), "report"):
 			dataFiles = append(dataFiles, p)
 		case strings.HasSuffix(p, "profile.yaml") && info.Size() < 16*1024:
 			profFiles = append(profFiles, p)
